@@ -97,6 +97,17 @@ CHECKS.update({
                 note='Trusted: transport provider / fresh real server per connection; a silent server is a link that drops what is written.'),
 })
 
+CHECKS.update({
+    'C19': dict(engine='simnet', level='exploration', design='3/C19',
+                technique='property-based testing with a reference dispatcher: Hypothesis-generated route tables, complete enumeration of request type x route state x authentication state x position per table',
+                text='Real client and real server running RoutingRequestHandler over the simulated network; every routed request of the cross product is compared with a reference dispatcher (which recording coroutine ran, with which arguments, what the requester saw).',
+                note='Trusted: reference dispatcher and the composite metadata built by the reference encoder.'),
+    'C20': dict(engine='simnet', level='exploration', design='3/C20',
+                technique='differential property-based testing: each generated scenario executed through the core API, Rx3 and ReactiveX4 adapters against a common reference sequence, plus wire monitors for request limits, credit and cancel',
+                text='Element counts, request limits, error and dispose positions, plain and back-pressure observables in both channel directions, all models; observers, wire and recording delegate compared with the scenario.',
+                note='Trusted: the scenario-derived expected sequences; Rx 3 and ReactiveX 4 from /venv.'),
+})
+
 NOT_YET = {}
 
 
